@@ -42,6 +42,15 @@ func (lc *loopClass) of(fn *ssa.Function) []*ssax.Loop {
 	return l
 }
 
+// inLoop: the innermost loop around ins (nil if none).
+func (lc *loopClass) inLoop(ins ssa.Instruction) *ssax.Loop {
+	b := ins.Block()
+	if b == nil {
+		return nil
+	}
+	return ssax.InnermostLoop(lc.of(b.Parent()), b)
+}
+
 // fullScanLoop: the innermost loop around ins, if none of its exits depends on
 // the bytes being scanned (it always runs over its whole range).
 func (lc *loopClass) fullScanLoop(ins ssa.Instruction) *ssax.Loop {
@@ -126,7 +135,15 @@ func costHooks(lc *loopClass, get func() *stepCtx, hooks *absint.Hooks) {
 		what := core.Short(ssax.Canon(call))
 		e.Check(st, fr, call.Pos(), "S-lo", "library call looks at input at or after the step's cursor: "+what, e.ProveLE(st, sc.pos0.AddK(-1), lo), fmt.Sprintf("the text handed to the library starts at %s, before the cursor this scan step started from (%s): consumed input is processed again on every step", e.LinStr(lo), e.LinStr(sc.pos0)))
 		// the far end of the text the library may look at must be consumed by the owning step
-		e.SetCell(st, ghostCost, fmt.Sprintf("X:%d:%d", call.Pos(), sc.owner(fr).ID()), absint.IntV{L: sv.Hi.Sub(sc.in.Lo)})
+		xk := fmt.Sprintf("X:%d:%d", call.Pos(), sc.owner(fr).ID())
+		hi := sv.Hi.Sub(sc.in.Lo)
+		if old, ok := e.CellOf(st, ghostCost, xk); ok {
+			if oi, isI := old.(absint.IntV); isI {
+				// executed before in this step: either a bounded window, or it continues behind what it covered
+				e.Check(st, fr, call.Pos(), "S-mono", "a repeated library call works on a bounded window or continues behind what it covered: "+what, e.ProveLE(st, hi.Sub(lo), absint.K(64)) || e.ProveLE(st, oi.L, lo), fmt.Sprintf("the library is given input from %s to %s although an earlier execution in the same scan step already covered the input up to %s: the same text is processed once per iteration (quadratic)", e.LinStr(lo), e.LinStr(hi), e.LinStr(oi.L)))
+			}
+		}
+		e.SetCell(st, ghostCost, xk, absint.IntV{L: hi})
 	}
 	hooks.OnRead = func(e *absint.Engine, st *absint.State, fr *absint.Frame, at ssa.Instruction, sv absint.StrV, idx absint.Lin) {
 		if prevRead != nil {
